@@ -8,6 +8,7 @@ import AdaVerif.Lemmas.HostSetter
 import AdaVerif.Lemmas.AggHostSetter
 import AdaVerif.Props.C10
 import AdaVerif.Lemmas.ParseBase
+import AdaVerif.Props.C04
 /-
 C03 — Setters implement the Standard's API setters and fail atomically.
 
@@ -326,6 +327,23 @@ theorem url_set_href_is_setHref (idna : Idna) (u : Url) (v : Bytes) (L : Nat) (h
     rw [hp] at hfit
     simp only at hfit ⊢
     simp [hfit]
+
+open AdaVerif.Model.ParseSpecial AdaVerif.Model.ParseAgg AdaVerif.Model.UrlRec AdaVerif.Model.Agg AdaVerif.Lemmas.UR in
+/-- **`url_aggregator::set_href`, end to end**: the aggregator's own parser (`Model/ParseAgg.lean`, proved in step with
+    `ada::url`'s in `Props.C04.parse_agrees`), its size checks on `buffer.size()`, and the take-over: the buffer that
+    lays out `u`'s fields becomes the buffer that lays out the Standard's href-setter result, or stays as it is -/
+theorem aggregator_set_href_end_to_end_partial (idna : Idna) (L : Nat) (u : Url) (v : Bytes) (hid : ∀ d, AdaVerif.Lemmas.HP.IdnaAt idna d)
+    (hclean : AdaVerif.Lemmas.HS.bracketClean (schemeSpecial v) false (hostStart v) = true) :
+    setHrefA idna L (layout (toL (recOf u))) v =
+      match parse idna v none with
+      | some n => if v.length ≤ L ∧ getHrefSize (recOf n) ≤ L then (layout (toL (recOf n)), true) else (layout (toL (recOf u)), false)
+      | none => (layout (toL (recOf u)), false) := by
+  rw [C04.href_agrees idna L u v hid hclean, url_set_href_end_to_end_partial idna L u v hid hclean]
+  cases parse idna v none with
+  | none => rfl
+  | some n =>
+    simp only
+    split <;> rfl
 
 open AdaVerif.Model.Agg AdaVerif.Lemmas.AggL in
 /-- **`url_aggregator::set_host` / `set_hostname`, end to end** (`Model/AggHostSetter.lean`, on the editor layer of C07:
